@@ -88,6 +88,24 @@ def esc_members(ctx, rule_id, syn_mod, table, contexts, only_members=None):
                        substchain.altered(ops, ch, at_start=True), None,
                        'leading {!r} ({}) is written unescaped in context '
                        '{} by Syntax.{}'.format(ch, why, cname, m))
+            # the converse: an escape the reader does not undo in this
+            # context arrives literally (a backslash before '#' in a recipe
+            # line is passed to the shell as it stands)
+            escaped = set()
+            for op in ops:
+                escaped |= set(op.anywhere)
+            undone = set(anywhere) | set(start) | set(
+                T.UNESCAPED_TOO.get(cname, ()))
+            for ch in sorted(escaped - undone):
+                n += 1
+                ctx.ob(rule_id, '{}|Syntax.{}|over-escaped|{!r}'.format(
+                    cname, m, ch), False, None,
+                    'Syntax.{} escapes {!r}, but in context {} the reader '
+                    'gives it no special meaning and does not remove the '
+                    'escape: the escape characters reach the consumer'
+                    .format(m, ch, cname))
+            ctx.ob(rule_id, '{}|Syntax.{}|no-over-escaping'.format(cname, m),
+                   True, None, '')
     return n
 
 
